@@ -230,6 +230,7 @@ def replay_build(src, profiles=('debug', 'release')):
         shutil.copy(os.path.join(src, 'Cargo.lock'), os.path.join(rdir, 'Cargo.lock'))
         scope = os.path.join(src, 'examples/multi-thread/scope.rs')
         shutil.copy(scope, os.path.join(rdir, 'src/scope_under_test.rs'))
+        shutil.copy(os.path.join(VERIF, 'kani/spec_class.rs'), os.path.join(rdir, 'src/spec_class.rs'))
     bins = {}
     for prof in profiles:
         env = dict(ENV, CARGO_TARGET_DIR=os.path.join(SCRATCH_ROOT, 'target-replay'))
